@@ -27,6 +27,7 @@ def varsLt (n : Nat) : Ex → Bool
   | acos a => a.varsLt n
   | ln a => a.varsLt n
   | atan2 a b => a.varsLt n && b.varsLt n
+  | clamp1 a => a.varsLt n
 
 theorem evalR_congr {ρ₁ ρ₂ : Nat → ℝ} {n : Nat} (h : ∀ m, m < n → ρ₁ m = ρ₂ m) :
     ∀ e : Ex, e.varsLt n = true → e.evalR ρ₁ = e.evalR ρ₂ := by
@@ -48,6 +49,7 @@ theorem evalR_congr {ρ₁ ρ₂ : Nat → ℝ} {n : Nat} (h : ∀ m, m < n → 
   | acos a iha => intro hv; simp only [varsLt] at hv; simp only [evalR, iha hv]
   | ln a iha => intro hv; simp only [varsLt] at hv; simp only [evalR, iha hv]
   | atan2 a b iha ihb => intro hv; simp only [varsLt, Bool.and_eq_true] at hv; simp only [evalR, iha hv.1, ihb hv.2]
+  | clamp1 a iha => intro hv; simp only [varsLt] at hv; simp only [evalR, iha hv]
 
 end Ex
 
